@@ -123,7 +123,7 @@ func zz16StateKey(k byte) []byte { return []byte{0, 0, 0, 0, 9, 0, 0, k} }
 //
 //zz:opt loop=400 gor=4000 hashdepth=64 sched=0 require=end,deleted,added
 //zz:quick P=2 budget=300s
-//zz:thorough P=3 budget=3600s
+//zz:thorough P=2 budget=1800s
 func zzH_C16_commit_revert_root(t *zzT) {
 	P := t.Param("P", 2)
 	kind := t.Choice("block2.op", 4) // 0 overwrite, 1 delete present, 2 add new key, 3 delete absent key
